@@ -233,21 +233,20 @@ class Family:
         return (tuple(steps[t:k]), self.strip(steps[k]), "terminated")
 
     def mix(self, c1, c2, i, t, others2, post2, pre2):
-        out = []
-        for j, (m1, m2) in enumerate(zip(c1, c2)):
-            if j != i:
-                out.append(m2 if others2 else m1)
-                continue
-            s1, t1 = m1
-            s2, t2 = m2
-            k = first_term(s1, t, self.term_idx)
-            pre = s2[:t] if pre2 else s1[:t]
-            if k is None:
-                out.append((tuple(pre) + tuple(s1[t:]), t1))
-            else:
-                P = s2 if post2 else s1
-                steps = tuple(pre) + tuple(s1[t:k]) + (self.merge(s1[k], P[k]),) + tuple(P[k + 1 :])
-                out.append((steps, t2 if post2 else t1))
+        """Context with member i's relevant data (equal in c1 and c2) and each category of
+        irrelevant data (other members - their number and lengths may differ -, member i's
+        post-terminal data, member i's steps before t) taken from c2 if the flag is set, else c1."""
+        out = list(c2 if others2 else c1)
+        s1, t1 = c1[i]
+        s2, t2 = c2[i]
+        k = first_term(s1, t, self.term_idx)
+        pre = s2[:t] if pre2 else s1[:t]
+        if k is None:
+            out[i] = (tuple(pre) + tuple(s1[t:]), t1)
+        else:
+            P = s2 if post2 else s1
+            steps = tuple(pre) + tuple(s1[t:k]) + (self.merge(s1[k], P[k]),) + tuple(P[k + 1 :])
+            out[i] = (steps, t2 if post2 else t1)
         return tuple(out)
 
     def nontrivial(self, ctx):
